@@ -91,3 +91,53 @@ func checkCloseNoWait(c *Ctx, r *Report) {
 		}
 	}
 }
+
+// checkSystemKeepalive: the ssh child of the system transport is the only thing that can end a read blocked on the
+// pty when the peer vanishes silently; it does so only if it probes the peer. Every argument list built by
+// buildOpenArgs therefore carries -o ServerAliveInterval=<socket timeout> (and -o ConnectTimeout=<socket timeout>),
+// whatever else is configured.
+func checkSystemKeepalive(c *Ctx, r *Report) {
+	rule := "C16/system-keepalive"
+	fn := c.LookupFunc("transport", "System", "buildOpenArgs")
+	if fn == nil {
+		r.Anchor(rule, "(*transport.System).buildOpenArgs")
+		return
+	}
+	paths := EnumeratePaths(c, fn, &dtConfig{IsAtomCall: func(call *ssa.Call) bool { return true }})
+	a := "param:" + fn.Params[1].Name()
+	want := `fmt.Sprintf("ServerAliveInterval=%d",{time.Duration.Seconds(` + a + `.TimeoutSocket)})`
+	n, missing := 0, 0
+	example := ""
+	for _, p := range paths {
+		if p.Undecided != "" {
+			r.Unk(rule, "buildOpenArgs paths", c.Pos(fn.Pos()), "path enumeration left the vocabulary: "+p.Undecided)
+			return
+		}
+		n++
+		final, ok := lastStore(p, ".OpenArgs")
+		if !ok {
+			continue
+		}
+		args := flattenAppend(final)
+		found := false
+		for i := 0; i+1 < len(args); i++ {
+			if args[i] == `"-o"` && args[i+1] == want {
+				found = true
+			}
+		}
+		if !found {
+			missing++
+			if example == "" {
+				example = fmt.Sprint(p.Assume)
+			}
+		}
+	}
+	switch {
+	case n == 0:
+		r.Unk(rule, "buildOpenArgs paths", c.Pos(fn.Pos()), "no paths enumerated")
+	case missing > 0:
+		r.Bad(rule, "ssh keepalive on every argument list", c.Pos(fn.Pos()), fmt.Sprintf("%d of %d argument lists do not pass -o ServerAliveInterval=<socket timeout> (e.g. when %s): with such a configuration ssh never notices a peer that vanished without FIN/RST, so the read blocked on the pty never returns", missing, n, example))
+	default:
+		r.OK(rule, "ssh keepalive on every argument list", c.Pos(fn.Pos()), fmt.Sprintf("all %d argument lists carry -o ServerAliveInterval=<socket timeout>", n))
+	}
+}
